@@ -1,6 +1,8 @@
 package an
 
 import (
+	"go/token"
+	"strconv"
 	"fmt"
 	"go/ast"
 	"go/types"
@@ -260,6 +262,15 @@ func (u *Unit) search(start *flow.Block, from int, stopBlock func(*flow.Block) b
 			for _, k := range u.litAssigned[litPos{b, i}] {
 				ps.state = dropLit(ps.state, k)
 			}
+			// y = x for two tracked variables: y now is what x is known to be
+			for _, cp := range u.litCopy[litPos{b, i}] {
+				switch hasLit(ps.state, cp[1]) {
+				case 1:
+					ps.state = addLit(ps.state, cp[0], true)
+				case 2:
+					ps.state = addLit(ps.state, cp[0], false)
+				}
+			}
 		}
 		return nil, false
 	}
@@ -367,38 +378,64 @@ func (u *Unit) stableLits() {
 		}
 		id, ok := ast.Unparen(f.Expr).(*ast.Ident)
 		if !ok {
-			continue
+			// x == nil / x != nil for a local x: the literal "x is nil"
+			if be, isBin := ast.Unparen(f.Expr).(*ast.BinaryExpr); isBin && (be.Op == token.EQL || be.Op == token.NEQ) {
+				var other ast.Expr
+				if xi, isId := ast.Unparen(be.X).(*ast.Ident); isId && xi.Name != "nil" {
+					id, other = xi, be.Y
+				} else if yi, isId := ast.Unparen(be.Y).(*ast.Ident); isId && yi.Name != "nil" {
+					id, other = yi, be.X
+				}
+				if id != nil {
+					if ni, isNil := ast.Unparen(other).(*ast.Ident); isNil && ni.Name == "nil" {
+						ok = true
+						if be.Op == token.NEQ {
+							pol = !pol
+						}
+					} else {
+						id = nil
+					}
+				}
+			}
+			if !ok || id == nil {
+				continue
+			}
 		}
 		v, isVar := u.Info().ObjectOf(id).(*types.Var)
 		if !isVar || v.IsField() || v.Pkg() == nil || v.Parent() == v.Pkg().Scope() {
 			continue
 		}
-		// the canonical form must be the variable itself (not an expanded definition)
-		cf := u.C.Formula(b.EdgeCond)
-		for cf.Op == flow.OpNot && len(cf.Kids) == 1 {
-			cf = cf.Kids[0]
-		}
-		if cf.Op != flow.OpAtom || cf.Cmp != nil {
-			continue
-		}
-		k := cf.Key
+		// (keyed by the variable itself: whether it prints as its name or as its definition does not matter here)
+		k := v.Name() + "@" + strconv.Itoa(int(v.Pos()))
 		if o, known := tracked[k]; known && o != types.Object(v) {
 			continue
 		}
-		if _, known := tracked[k]; !known && len(tracked) >= 6 {
+		if _, known := tracked[k]; !known && len(tracked) >= 10 {
 			continue
 		}
 		tracked[k] = v
 		u.edgeLit[b] = edgeLiteral{k, pol}
 	}
+	u.litCopy = map[litPos][][2]string{}
+	keyOf := map[types.Object]string{}
+	for k, o := range tracked {
+		keyOf[o] = k
+	}
 	for _, s := range u.Sites {
-		if s.Kind != flow.SStore || s.Local == nil {
+		if s.Kind != flow.SStore || s.Local == nil || s.Index {
 			continue
 		}
-		for k, o := range tracked {
-			if o == s.Local {
-				p := litPos{s.Block, s.NodeIdx}
-				u.litAssigned[p] = append(u.litAssigned[p], k)
+		k, isTracked := keyOf[s.Local]
+		if !isTracked {
+			continue
+		}
+		p := litPos{s.Block, s.NodeIdx}
+		u.litAssigned[p] = append(u.litAssigned[p], k)
+		if s.RHS != nil {
+			if rid, isId := ast.Unparen(s.RHS).(*ast.Ident); isId {
+				if sk, srcTracked := keyOf[u.Info().ObjectOf(rid)]; srcTracked && sk != k {
+					u.litCopy[p] = append(u.litCopy[p], [2]string{k, sk})
+				}
 			}
 		}
 	}
